@@ -1167,6 +1167,27 @@ func checkLoopAllocs(p *Program, r *Report) {
 			if !wide {
 				continue
 			}
+			// copies: a spread append, a string/[]byte/[]rune conversion, or a call of a module
+			// function that copies a slice or string argument — each one allocates as many bytes
+			// as the data it is given, and inside this loop it is given input-declared ranges
+			for b := range body {
+				for _, in := range b.Instrs {
+					what := ""
+					switch x := in.(type) {
+					case *ssa.Call:
+						what = copyingCall(p, x, 0, func(v ssa.Value) bool { return perIterationBuffer(v, body) })
+					case *ssa.Convert:
+						what = copyingConvert(x)
+					}
+					if what == "" {
+						continue
+					}
+					n++
+					site++
+					key := fmt.Sprintf("%s loop-copy#%d", shortFn(f), site)
+					r.Violate("C09.A2", key, p.InstrPos(in), fmt.Sprintf("%s copies data (%s) inside a loop whose trip count is declared by the input; each copy is as large as the range it is given, which is bounded only by the whole input, not by the bytes this iteration consumes: k entries can each claim the same large range, so memory grows quadratically with the input", shortFn(f), what))
+				}
+			}
 			for b := range body {
 				for _, in := range b.Instrs {
 					mk, ok := in.(*ssa.MakeSlice)
@@ -1188,6 +1209,136 @@ func checkLoopAllocs(p *Program, r *Report) {
 	if n == 0 {
 		r.Hold("C09.A2", "scan", "-", "no allocation inside an input-bounded loop")
 	}
+}
+
+// copyingConvert: string(b) / []byte(s) / []rune(s) of non-constant data.
+func copyingConvert(x *ssa.Convert) string {
+	if _, isC := x.X.(*ssa.Const); isC {
+		return ""
+	}
+	from, to := x.X.Type().Underlying(), x.Type().Underlying()
+	isStr := func(t types.Type) bool { b, ok := t.(*types.Basic); return ok && b.Info()&types.IsString != 0 }
+	isSl := func(t types.Type) bool { _, ok := t.(*types.Slice); return ok }
+	if (isStr(from) && isSl(to)) || (isSl(from) && isStr(to)) {
+		return "conversion " + x.X.Type().String() + " → " + x.Type().String()
+	}
+	return ""
+}
+
+// copyingCall: append(dst, src...) spreading an existing slice of non-narrow
+// length, or a call of a module function that (within three calls) copies one
+// of its slice/string parameters that way.
+func copyingCall(p *Program, c *ssa.Call, depth int, bounded func(ssa.Value) bool) string {
+	if b, ok := c.Call.Value.(*ssa.Builtin); ok {
+		if b.Name() == "append" && len(c.Call.Args) == 2 {
+			src := c.Call.Args[1]
+			if _, lit := sliceLitElems(src); lit {
+				return ""
+			}
+			if isBoundedSlice(src) || (bounded != nil && bounded(src)) {
+				return ""
+			}
+			return "append(…, " + src.Name() + "...)"
+		}
+		return ""
+	}
+	callee := staticCallee(c)
+	if callee == nil || !isPrismFn(callee) || depth > 2 || len(callee.Blocks) == 0 {
+		return ""
+	}
+	// which parameters receive a slice or string of unbounded length?
+	for ai, a := range c.Call.Args {
+		if ai >= len(callee.Params) {
+			break
+		}
+		switch a.Type().Underlying().(type) {
+		case *types.Slice:
+		case *types.Basic:
+			if bt := a.Type().Underlying().(*types.Basic); bt.Info()&types.IsString == 0 {
+				continue
+			}
+		default:
+			continue
+		}
+		if isBoundedSlice(a) || (bounded != nil && bounded(a)) {
+			continue
+		}
+		S := derivedAddrs(callee, map[ssa.Value]bool{callee.Params[ai]: true})
+		for _, b := range callee.Blocks {
+			for _, in := range b.Instrs {
+				switch x := in.(type) {
+				case *ssa.Convert:
+					if S[x.X] && copyingConvert(x) != "" {
+						return shortFn(callee) + ": " + copyingConvert(x)
+					}
+				case *ssa.Call:
+					if bi, ok := x.Call.Value.(*ssa.Builtin); ok && bi.Name() == "append" && len(x.Call.Args) == 2 && S[x.Call.Args[1]] {
+						return shortFn(callee) + ": append(…, " + callee.Params[ai].Name() + "...)"
+					}
+					for _, arg := range x.Call.Args {
+						if S[arg] {
+							if w := copyingCall(p, x, depth+1, nil); w != "" {
+								return w
+							}
+						}
+					}
+				case *ssa.MakeSlice:
+					if ln, ok := x.Len.(*ssa.Call); ok {
+						if bi, isB := ln.Call.Value.(*ssa.Builtin); isB && bi.Name() == "len" && S[ln.Call.Args[0]] {
+							return shortFn(callee) + ": make(len(" + callee.Params[ai].Name() + "))"
+						}
+					}
+				}
+			}
+		}
+	}
+	return ""
+}
+
+// perIterationBuffer: the contents of a strings.Builder / bytes.Buffer that is
+// created inside the loop body — what one iteration wrote into it, i.e. bytes
+// this iteration consumed (or copies that are judged where they are made).
+func perIterationBuffer(v ssa.Value, body map[*ssa.BasicBlock]bool) bool {
+	c, ok := v.(*ssa.Call)
+	if !ok {
+		return false
+	}
+	cf := staticCallee(c)
+	if cf == nil || cf.Signature.Recv() == nil || len(c.Call.Args) == 0 {
+		return false
+	}
+	rt := cf.Signature.Recv().Type()
+	if !(namedIs(rt, "strings", "Builder") && cf.Name() == "String") && !(namedIs(rt, "bytes", "Buffer") && (cf.Name() == "Bytes" || cf.Name() == "String")) {
+		return false
+	}
+	al, ok := c.Call.Args[0].(*ssa.Alloc)
+	return ok && body[al.Block()]
+}
+
+// isBoundedSlice: a slice whose length is a constant or at most 16 input bits
+// (s[a:b] with constant/narrow b−a is not attempted: a[lo:lo+k] with constant k).
+func isBoundedSlice(v ssa.Value) bool {
+	switch x := v.(type) {
+	case *ssa.Const:
+		return true
+	case *ssa.Slice:
+		if at, ok := x.X.Type().Underlying().(*types.Pointer); ok {
+			if _, isArr := at.Elem().Underlying().(*types.Array); isArr {
+				return true // a slice of a fixed-size array
+			}
+		}
+		if x.High != nil && x.Low != nil {
+			if hb, ok := x.High.(*ssa.BinOp); ok && hb.Op == token.ADD {
+				if (hb.X == x.Low && isConstOrNarrowSource(hb.Y)) || (hb.Y == x.Low && isConstOrNarrowSource(hb.X)) {
+					return true
+				}
+			}
+		}
+		if x.High != nil && x.Low == nil && isConstOrNarrowSource(x.High) {
+			return true
+		}
+	}
+	return false
 }
 
 func isConstOrNarrowSource(v ssa.Value) bool {
